@@ -321,7 +321,15 @@ def rule_R4(ctx, f):
                             cnd, neg = cnd[2], True
                         if cnd[0] == "var" and b.local_ty(cnd[1]) == "bool":
                             alts = b.var_alts(cnd[1])
-                            vals = sorted(a[1] for a in alts if a[0] == "const")
+                            flag_locals = [cnd[1]]
+                            # `a = a || x` goes through a temporary: look through locals that only carry the value
+                            for _ in range(2):
+                                nested = [a for a in alts if a[0] == "var" and b.local_ty(a[1]) == "bool"]
+                                if not nested:
+                                    break
+                                flag_locals += [a[1] for a in nested]
+                                alts = [a for a in alts if a not in nested] + [x for a in nested for x in b.var_alts(a[1])]
+                            vals = sorted({a[1] for a in alts if a[0] == "const"})
                             ors = [a for a in alts if a[0] == "binop" and a[1] == "BitOr"]
                             if vals == ["false"] and len(ors) == 1 and len(alts) == 2:
                                 # `inf_seen |= upper_bound == f64::INFINITY`
@@ -335,7 +343,18 @@ def rule_R4(ctx, f):
                                     okeq = len(infs) == 1 and len(ubs) == 1
                                 edge = be[1] if neg else be[2]
                                 guard = okeq and b.edge_dominates(bi, edge, ci.bb)
-                            if vals == ["false", "true"]:
+                            eqalts = [a for a in alts if a[0] == "binop" and a[1] == "Eq"]
+                            if vals == ["false", "true"] and len(eqalts) == 1 and len(set(alts)) == 3:
+                                # `inf_seen = inf_seen || upper_bound == f64::INFINITY`: true stays true, otherwise the comparison
+                                eqs = eqalts[0]
+                                infs = [z for z in (eqs[2], eqs[3]) if isinstance(z, tuple) and z[0] in ("const", "constdef") and re.search(r"INFINITY|^\+?inf", str(z[1]))]
+                                ubs = [z for z in (eqs[2], eqs[3]) if is_call(peel(z), ["Bucket::upper_bound", "get_upper_bound"])]
+                                tb = [dd[1] for l_ in flag_locals for dd in b.defs()[l_] if dd[0] == "assign" and dd[3].get("ops") and dd[3]["ops"][0].get("val") == "true"]
+                                # the constant `true` is assigned only where the flag was already true
+                                keep = all(any(b.bool_edges(bj) and b.bool_edges(bj)[0] == cnd and b.edge_dominates(bj, b.bool_edges(bj)[1], x) for bj in b.reachable_blocks()) for x in tb)
+                                edge = be[1] if neg else be[2]
+                                guard = len(infs) == 1 and len(ubs) == 1 and keep and b.edge_dominates(bi, edge, ci.bb)
+                            elif vals == ["false", "true"]:
                                 edge = be[1] if neg else be[2]
                                 guard = b.edge_dominates(bi, edge, ci.bb)
                                 # the `true` assignment is control dependent on is_sign_positive && is_infinite of the bucket's bound
